@@ -395,6 +395,11 @@ def check_C14(ctx):
             taken = set(n for d in c["decls"] if d["t"] == "opt" for n in d["name"].split())
             if rng.random() < 0.25 and not taken & {"h", "help"}:
                 c["decls"].append(gen.mkopt("bool", rng.choice(["h", "help", "h help", "help h"]), **{"def": ["false"]}))
+        # a sub-command may itself be named like a help token: the token still asks for the help of the command it is given to
+        if rng.random() < 0.15:
+            holder = rng.choice(cmds)
+            if not any(set(x["name"].split()) & {"-h", "--help", "hlp", "hh"} for x in holder["subs"]):
+                holder["subs"].append(gen.mkcmd(rng.choice(["hlp -h", "hh --help", "-h", "hlp --help -h"]), desc="named like a help token"))
         # the version flag is declared before or after the root's own options
         version = {"name": "V version", "text": "v1.2", "last": rng.random() < 0.5} if rng.random() < 0.5 else None
         argv = flat_argv(path, per_level)
@@ -404,7 +409,9 @@ def check_C14(ctx):
             pl = [list(x) for x in per_level]
             k = rng.randint(0, len(pl[lvl]))
             tok = rng.choice(["-h", "--help"])
-            for t in (tok, "zz"):
+            # (a token that spells a sub-command name of this very level is not one of its own arguments)
+            own_aliases = set(a_ for s_ in cmds[lvl]["subs"] for a_ in s_["name"].split())
+            for t in ((tok, "zz") if tok not in own_aliases else ()):
                 pl2 = [list(x) for x in pl]
                 pl2[lvl] = pl2[lvl][:k] + ["--"] + ["pp" for _ in range(rng.randint(0, 1))] + [t] + pl2[lvl][k:]
                 if t != tok:
